@@ -21,7 +21,13 @@ Record case := {
   c_gets : list (node * bool);           (* Class.get(id) afterwards, for every row that existed: found? *)
   c_spec_refused : bool;                 (* the plugin's specification: refusal ... *)
   c_spec_tabs : list (N * list row);     (* ... and the expected tables otherwise *)
-  c_spec_links : list (N * list (Z * Z))
+  c_spec_links : list (N * list (Z * Z));
+  c_opts : options;                      (* sqlmeta.lazyUpdate / cacheValues per class *)
+  c_q0 : queue;                          (* assignments queued on held instances before the destroy *)
+  c_txn : bool;                          (* victim fetched through a Transaction; commit / rollback afterwards *)
+  c_qobs : bool;                         (* queues and the flush were observed *)
+  c_queues : list (node * qentry);       (* _SO_createValues of the live instance of every surviving lazy row *)
+  c_tabs2 : list (N * list row)          (* dump after syncUpdate() of every live instance *)
 }.
 
 Definition optz_eqb := option_eqb Z.eqb.
@@ -35,21 +41,42 @@ Definition links_eqb (a b : list (N * list (Z * Z))) : bool :=
 Definition fuel : nat := 40.
 
 (* Class.delete(id) is get(id) followed by destroySelf() *)
-Definition model_out (c : case) : option result :=
+Definition xlift (r : result) : xresult :=
+  match r with Done st => XDone st [] | Raised st => XRaised st [] | OutOfFuel => XOutOfFuel end.
+
+Definition model_out (c : case) : option xresult :=
   if row_exists (c_state c) (c_victim c)
-  then Some (destroy (c_cache c) fuel (c_graph c) (c_state c) (c_victim c))
+  then Some (if c_txn c
+             then xlift (destroy_txn (c_opts c) (c_cache c) fuel (c_graph c) (c_state c) (c_victim c))
+             else destroyX (c_opts c) (c_cache c) fuel (c_graph c) (c_state c) (c_q0 c) (c_victim c))
   else None.
 
-Definition state_obs_ok (c : case) (st : state) : bool :=
+Definition ooz_eqb := option_eqb optz_eqb.
+Definition is_none {A} (o : option A) : bool := match o with None => true | Some _ => false end.
+(* queue entries compared up to missing (= nothing queued) positions *)
+Fixpoint qeq (a b : qentry) {struct a} : bool :=
+  match a with
+  | [] => forallb is_none b
+  | x :: s => match b with
+              | [] => is_none x && forallb is_none s
+              | y :: t => ooz_eqb x y && qeq s t
+              end
+  end.
+
+Definition state_obs_ok (c : case) (st : state) (q : queue) : bool :=
   tabs_eqb (s_tabs st) (c_tabs c) && links_eqb (s_links st) (c_links c) &&
-  forallb (fun g => Bool.eqb (get_found st (fst g)) (snd g)) (c_gets c).
+  forallb (fun g => Bool.eqb (get_found st (fst g)) (snd g)) (c_gets c) &&
+  (if c_qobs c
+   then forallb (fun e => qeq (match qfind q (fst e) with Some x => x | None => [] end) (snd e)) (c_queues c)
+        && tabs_eqb (s_tabs (flush q st)) (c_tabs2 c)
+   else true).
 
 Definition agree_model (c : case) : bool :=
   match model_out c, c_out c with
-  | Some (Done st), OOk => state_obs_ok c st
-  | Some (Raised st), ORefused => state_obs_ok c st
-  | Some OutOfFuel, ORecursion => true     (* the interpreter's limit decides where it stops: no state compared *)
-  | None, ONotFound => state_obs_ok c (c_state c)
+  | Some (XDone st q), OOk => state_obs_ok c st q
+  | Some (XRaised st q), ORefused => state_obs_ok c st q
+  | Some XOutOfFuel, ORecursion => true     (* the interpreter's limit decides where it stops: no state compared *)
+  | None, ONotFound => state_obs_ok c (c_state c) (c_q0 c)
   | _, _ => false
   end.
 
